@@ -6,7 +6,7 @@ CONSTANTS
             "cutend2", "cutend3", "cutend4", "cutend5", "cutend8", "cutend16", "cutend32", "cutend64"}
   Versions = {0, 2, 256, 257, 512, 768, 769, 770, 771, 772, 1024, 65535}
   SuiteRewrites = {"empty", "unknown", "unknown_first", "odd", "ecdhe_only", "scsv"}
-  Scripts = {"none", "omit_cv", "dup_cv", "dup_cke", "noccs_plainfin", "noccs_plainfin_hreq", "fin_before_ccs", "ccs_twice", "appdata_before_fin", "fin_trailing1", "fin_trailing20", "fin_short"}
+  Scripts = {"none", "omit_cv", "dup_cv", "dup_cke", "noccs_plainfin", "noccs_plainfin_hreq", "fin_before_ccs", "ccs_twice", "appdata_before_fin", "fin_trailing1", "fin_trailing20", "fin_short", "npn_offered", "npn_unsolicited"}
   Policies = {"none", "request", "requireany", "verifyifgiven", "requireandverify"}
   ExtTypes = {0, 5, 10, 11, 13, 16, 18, 23, 35, 13172, 65281, 64250}
   ExtShapes = {"nodata", "list0_8", "list0_16", "item0", "item0_16", "over", "under", "ones", "twice"}
